@@ -6,7 +6,9 @@ directory is empty at quiescence; surviving iterators and later passes yield
 the complete reference sequence; nothing escapes from a finaliser; once
 faults stop a fresh pass over a view that is still held is complete."""
 import gc
+import json
 import logging
+import sys
 import os
 import tempfile
 
@@ -121,6 +123,10 @@ def gen_case(rng, tier, g):
         # the petl logger with a handler that formats every record, or one
         # that also keeps the records (MemoryHandler, pytest's caplog)
         case['knobs']['logging'] = 'retain' if r < 0.18 else 'format'
+    if rng.random() < 0.006 and not case.get('enum'):
+        # the history ends with the interpreter, nothing released before
+        case['exit'] = rng.choice(['end-of-script', 'sys.exit'])
+        return case
     if rng.random() < 0.12:
         case['fluent'] = True       # method-call style
     if rng.random() < 0.04:
@@ -212,6 +218,76 @@ def _log_handler(mode):
     return h
 
 
+# ---------------------------------------------------------------------------
+# interpreter exit: the history runs in a fresh interpreter, which ends
+# (falls off the end of the script, or sys.exit()) while the views and
+# iterators are still alive.  All users are gone then, so all temp files are.
+
+_EXIT_CHILD = r'''
+import json, sys
+sys.path.insert(0, %(verif)r)
+from checks import c18
+c18.exit_child(json.load(open(%(casefile)r)), %(td)r)
+'''
+
+_KEEP = []
+
+
+def exit_child(case, td):
+    """Runs in the child interpreter."""
+    e = load_petl()
+    import petl.config as config
+    import tempfile as _tf
+    _tf.tempdir = td
+    kb = case.get('knobs', {}).get('sort_buffersize')
+    if kb is not None:
+        config.sort_buffersize = kb
+    stack = case['stack']
+    w, views = build(e, stack, case['tables'], tempdir=td)
+    sch = Sched(list(views), [None] * len(views), items=is_items(stack),
+                expect_fault=lambda t, ex: True)
+    _KEEP.extend([w, views, sch])       # alive until the interpreter ends
+    for op in case['steps']:
+        if op[0] in ('ARM', 'DISKFULL', 'GC', 'DROP', 'DROPVIEW', 'CLOSE'):
+            continue                    # nothing is released before the end
+        sch.step(op)
+    if case.get('exit') == 'sys.exit':
+        sys.exit(0)
+
+
+def _run_exit_case(case, sb, log, label, group):
+    import subprocess
+    td = os.path.join(sb.path, 'td')
+    os.mkdir(td)
+    casefile = os.path.join(sb.path, 'case.json')
+    with open(casefile, 'w') as f:
+        json.dump(case, f)
+    verif = os.path.dirname(os.path.dirname(os.path.abspath(__file__)))
+    env = dict(os.environ, TMPDIR=td, PYTHONHASHSEED='0',
+               PYTHONDONTWRITEBYTECODE='1')
+    p = subprocess.run([sys.executable, '-c', _EXIT_CHILD % {
+        'verif': verif, 'casefile': casefile, 'td': td}], env=env,
+        stdout=subprocess.PIPE, stderr=subprocess.STDOUT, text=True,
+        timeout=300)
+    left = _listing(td)
+    log.add('exit', p.returncode, left)
+    if p.returncode != 0:
+        # the history itself failed in the child (e.g. the recipe raises on
+        # these tables): nothing to judge
+        return outcome('trivial', digest=log.hexdigest(), nontrivial=False,
+                       extra={'group': group, 'why': 'child-failed'})
+    if left:
+        return _viol(case, log, 'temp-file-left-at-exit',
+                     '%s: %d temp files are left after the interpreter that '
+                     'ran the history has ended (%s): %r'
+                     % (label, len(left), case.get('exit'), left), group)
+    return outcome('ok', digest=log.hexdigest(), steps=len(case['steps']),
+                   nontrivial=True, probes={'interpreter-exit': 1,
+                                            'recipe:' + case['stack'][0][0]:
+                                            1},
+                   states=['%s:exit' % label], extra={'group': group})
+
+
 def run_case(case):
     e = load_petl()
     import petl.config as config
@@ -222,13 +298,23 @@ def run_case(case):
     rec = RECIPES[stack[0][0]]
     group = rec.group
     label = '+'.join(s[0] for s in stack)
+    if case.get('exit'):
+        # (before anything global is touched in this process)
+        with devices.TempSandbox() as sb:
+            return _run_exit_case(case, sb, Log(), '+'.join(
+                st[0] for st in case['stack']),
+                RECIPES[case['stack'][0][0]].group)
     saved = config.sort_buffersize
     kb = case.get('knobs', {}).get('sort_buffersize')
     if kb is not None:
         config.sort_buffersize = kb
     uses_diskfull = any(op[0] == 'DISKFULL' for op in case['steps'])
     ctl = _TempCtl()
-    saved_ntf = (psorts.NamedTemporaryFile, pjson.NamedTemporaryFile)
+    # (the seam for ENOSPC: the name NamedTemporaryFile inside the two
+    # modules; a tree that creates its files some other way simply gets no
+    # disk-full injection there)
+    saved_ntf = (getattr(psorts, 'NamedTemporaryFile', None),
+                 getattr(pjson, 'NamedTemporaryFile', None))
     logmode = case.get('knobs', {}).get('logging')
     handler = _log_handler(logmode) if logmode else None
     probes = {}
@@ -256,8 +342,10 @@ def run_case(case):
                              '%s: %d temp files left after a solo pass and '
                              'release: %r' % (label, len(left), left), group)
             if uses_diskfull:
-                psorts.NamedTemporaryFile = ctl.factory
-                pjson.NamedTemporaryFile = ctl.factory
+                if saved_ntf[0] is not None:
+                    psorts.NamedTemporaryFile = ctl.factory
+                if saved_ntf[1] is not None:
+                    pjson.NamedTemporaryFile = ctl.factory
             if case.get('enum'):
                 result, nsteps, maxfiles = _enumerate(
                     e, case, stack, expected, td, sb, ctl, log, probes,
@@ -283,7 +371,10 @@ def run_case(case):
                                    group)
     finally:
         config.sort_buffersize = saved
-        psorts.NamedTemporaryFile, pjson.NamedTemporaryFile = saved_ntf
+        if saved_ntf[0] is not None:
+            psorts.NamedTemporaryFile = saved_ntf[0]
+        if saved_ntf[1] is not None:
+            pjson.NamedTemporaryFile = saved_ntf[1]
         if handler is not None:
             lg = logging.getLogger('petl')
             lg.removeHandler(handler)
